@@ -9,11 +9,11 @@ ID = "C19"
 LEVEL = "exploration"
 BUDGET = {"quick": 640, "thorough": 250000}
 TECHNIQUE = "property-based testing: constructed interior cell centres, stored value from the generator's payload as the oracle"
-RULE = ("Hypothesis-generated nested 3D plotfiles (non-zero origin, anisotropic cells, 1-3 levels, any layout, finite "
+RULE = ("Hypothesis-generated nested 3D plotfiles (non-zero origin incl. a quarter placed 1e3-3e5 domain lengths away, anisotropic cells, 1-3 levels, any layout, finite "
         "random payload |v| <= 1e3) x ~10 query points per plotfile constructed as centres of cells that belong to the "
         "finest selected level covering them and lie >= 1 cell inside their box, x field selection (name, index, "
-        "ascending name / index list; permuted and negative index lists under the either-rule: refused or right) x reader level limit; plus points outside the domain (below / above / far, one "
-        "coordinate at a time). Interior: every selected field's value within 1e-8*(1+max|box|) of the stored cell; "
+        "ascending name / index list; permuted and negative index lists under the either-rule: refused or right) x reader level limit; plus points outside the domain (a hair 1e-9 L / 1% / 50 L below or above, one "
+        "coordinate at a time); in half the cases one selection object answers all points of the case. Interior: every selected field's value within 1e-8*(1+max|box|) of the stored cell; "
         "outside: an exception. Non-trivial = origin != 0 or anisotropic or a point on level >= 1.")
 ASSUMPTIONS = ["cubic-spline evaluation at an integer node reproduces the node value to rounding (tolerance 1e-8 relative to the box)"]
 
@@ -24,6 +24,14 @@ def cases(draw, tier="quick"):
                                    payload_kinds=("random",)))
     nf = len(spec["fields"])
     nlev = spec["mesh"]["nlev"]
+    # "wherever the domain is placed in space": a quarter of the plotfiles sit far from the origin (map-like coordinates,
+    # |x| up to 3e5 domain lengths), in one or more directions
+    far = [0.0, 0.0, 0.0, 1e3, 3e4, -1e5, 3e5, -7e3][draw(st.integers(0, 2 ** 16)) % 8]
+    if far:
+        dims = draw(st.lists(st.integers(0, 2), min_size=1, max_size=3, unique=True))
+        for d in dims:
+            spec["geom"]["origin"][d] = far * spec["geom"]["lengths"][d]
+        spec["far"] = far
     pts = []
     for _ in range(draw(st.integers(6, 12))):
         kind = draw(st.sampled_from(["in", "in", "in", "in", "out"]))
@@ -31,8 +39,9 @@ def cases(draw, tier="quick"):
         k = draw(st.lists(st.integers(0, nf - 1), min_size=1, max_size=nf, unique=True))
         pts.append(dict(kind=kind, fsel=fsel, fields=k, lv=draw(st.integers(0, nlev - 1)), box=draw(st.integers(0, 60)),
                         cell=[draw(st.integers(0, 40)) for _ in range(3)], dim=draw(st.integers(0, 2)),
-                        out=draw(st.sampled_from(["below", "above", "far_below", "far_above"]))))
-    return dict(spec=spec, limit=draw(st.one_of(st.none(), st.integers(0, nlev - 1))), points=pts)
+                        out=draw(st.sampled_from(["below", "above", "far_below", "far_above", "hair_below", "hair_above"]))))
+    # reuse: one selection object answers all the points of the case (probe = pck[fields]; probe(p1); probe(p2); ...)
+    return dict(spec=spec, limit=draw(st.one_of(st.none(), st.integers(0, nlev - 1))), points=pts, reuse=draw(st.booleans()))
 
 
 def compact(case):
@@ -55,7 +64,24 @@ def check_case(case, ctx):
         return [f"opening raised {type(e).__name__}: {e}"]
     v = []
     names = plot.fields
+    reuse = bool(case.get("reuse"))
+    sels = {}
+    if reuse:
+        ctx.label("selector-reused")
+    if case["spec"].get("far"):
+        ctx.label("far-placed")
+
+    def query(fobj, xyz):
+        if not reuse:
+            return pck[fobj](*xyz)
+        key = repr(fobj)
+        if key not in sels:
+            sels[key] = pck[fobj]
+        return sels[key](*xyz)
+
     for pi, pt in enumerate(case["points"]):
+        if reuse:                                # same selection for every point of the case
+            pt = dict(pt, fsel=case["points"][0]["fsel"], fields=case["points"][0]["fields"])
         if pt["fsel"] == "name":
             fobj, fi, single = names[pt["fields"][0]], [pt["fields"][0]], True
         elif pt["fsel"] == "int":
@@ -81,11 +107,13 @@ def check_case(case, ctx):
             centre = [(plot.geo_lo[d] + plot.geo_hi[d]) / 2 for d in range(3)]
             d = pt["dim"]
             w = plot.geo_hi[d] - plot.geo_lo[d]
+            hair = max(1e-9 * w, 64 * np.spacing(max(abs(plot.geo_lo[d]), abs(plot.geo_hi[d]))))
             centre[d] = {"below": plot.geo_lo[d] - 0.01 * w, "above": plot.geo_hi[d] + 0.01 * w,
-                         "far_below": plot.geo_lo[d] - 50 * w, "far_above": plot.geo_hi[d] + 50 * w}[pt["out"]]
+                         "far_below": plot.geo_lo[d] - 50 * w, "far_above": plot.geo_hi[d] + 50 * w,
+                         "hair_below": plot.geo_lo[d] - hair, "hair_above": plot.geo_hi[d] + hair}[pt["out"]]
             ctx.label("point:outside")
             try:
-                got = qcall(lambda: pck[fobj](*centre))
+                got = qcall(lambda: query(fobj, centre))
                 v.append(f"point {pi} {centre} outside the domain along axis {d} was answered with {got!r}")
             except Exception:
                 pass
@@ -106,12 +134,16 @@ def check_case(case, ctx):
         xyz = [plot.geo_lo[d] + (cell[d] + 0.5) * plot.dx[lv][d] for d in range(3)]
         data = plot.box_data(lv, b)
         stored = data[cell[0] - lo[0], cell[1] - lo[1], cell[2] - lo[2], fi]
-        tol = 1e-8 * (1.0 + float(np.max(np.abs(data[..., fi]))))
+        big = float(np.max(np.abs(data[..., fi])))
+        # a far-placed cell centre is representable only to a few ulp of |x|: that position error (in cells) times the
+        # largest slope of the interpolant is added to the node-reproduction tolerance
+        poserr = max(8 * np.finfo(float).eps * abs(xyz[d]) / plot.dx[lv][d] for d in range(3))
+        tol = 1e-8 * (1.0 + big) + poserr * 6.0 * big
         ctx.label(f"point:level{lv}", "fsel:" + pt["fsel"])
-        if lv >= 1 or "origin!=0" in labs or "anisotropic" in labs:
+        if lv >= 1 or "origin!=0" in labs or "anisotropic" in labs or case["spec"].get("far"):
             ctx.nontrivial()
         try:
-            got = qcall(lambda: pck[fobj](*xyz))
+            got = qcall(lambda: query(fobj, xyz))
         except Exception as e:
             if not either:
                 v.append(f"point {pi} at the centre of level {lv} cell {cell} (box {b}, {xyz}) raised {type(e).__name__}: {e}")
